@@ -188,6 +188,13 @@ async fn copier(a: Args, idx: usize, m: ss::Method, users: usize) -> Report {
                     rep.violation(format!("C02|{}|rebind:{}", cfgname, crate::panicmon::normalise(p)), format!("{cfgname}: after the binding was re-opened: {p}"), w.clone());
                     break;
                 }
+                // the datagram that re-opens the binding is one datagram
+                tokio::time::sleep(Duration::from_millis(150)).await;
+                let twice: Vec<(u16, u32)> = tb.log.lock().unwrap().seen.iter().filter(|(k, c)| k.0 == appid && **c > 1).map(|(k, _)| *k).collect();
+                if !twice.is_empty() {
+                    rep.violation(format!("C02|{}|rebind:datagram-delivered-twice", cfgname), format!("{cfgname}: the datagram that re-opened the binding reached its target more than once: {:?}", twice), w.clone());
+                    break;
+                }
                 if let Some((h, p)) = &labelled {
                     if h != "127.0.0.1" || *p != tb.port {
                         rep.violation(format!("C02|{}|rebind:answer-labelled-with-another-target", cfgname), format!("{cfgname}: the answer of 127.0.0.1:{} is labelled {h}:{p}", tb.port), w);
@@ -637,6 +644,147 @@ async fn labels(a: Args, idx: usize, proto: Proto) -> Report {
     rep
 }
 
+/// (3) A binding is being opened (its transport handshake is held up for 700 ms by the path) while replies for ANOTHER
+/// application keep arriving: the datagram that opens the binding must still go out once the handshake is through.
+/// (4) SOCKS5-UDP fragments (FRAG != 0) of two applications, interleaved: dropped or reassembled per application - never
+/// a datagram made of two applications' bytes.
+async fn opening_and_fragments(a: Args, idx: usize, proto: Proto, transport: Transport) -> Report {
+    let mut rep = Report::new();
+    let mut rng = Rng::derive(a.seed, 0xC02F, idx as u64);
+    let cfg = Cfg::random(&mut rng, proto, if matches!(proto, Proto::Vmess(_)) { 1 } else { 0 });
+    let dir = work_dir(&a, &format!("c02x-o{idx}"));
+    let d = Deploy::new(cfg, transport, true, 2, &dir);
+    let cfgname = format!("{}|{}", proto.name(), if matches!(proto, Proto::Ss(_)) { "udp" } else { transport.name() });
+    let is_ss = matches!(proto, Proto::Ss(_));
+    // datagram-in-stream protocols: the client reaches the server through a path that holds every new connection for
+    // 700 ms after its first 3 bytes
+    let slow = if is_ss { None } else { super::pipe::slow_path(d.server_port, 3, Duration::from_millis(700)).await };
+    let link = slow.as_ref().map(|s| s.0);
+    let (dd, tag) = (d.clone(), format!("c02x-o{idx}"));
+    let pair = tokio::task::spawn_blocking(move || match link {
+        Some(p) => start_pair_via(&dd, &tag, p),
+        None => start_pair(&dd, &tag),
+    })
+    .await
+    .unwrap();
+    let mut pair = match pair {
+        Ok(p) => p,
+        Err(e) => {
+            rep.inconclusive(format!("{cfgname}: nodes do not start: {}", e.lines().next().unwrap_or("")));
+            return rep;
+        }
+    };
+    let nonce = rng.next_u64();
+    // echo target; a datagram with seq 777 also starts 60 further replies, 50 ms apart
+    let t = Arc::new(UdpSocket::bind("127.0.0.1:0").await.unwrap());
+    let tport = t.local_addr().unwrap().port();
+    let problems: Arc<Mutex<Vec<String>>> = Arc::new(Mutex::new(Vec::new()));
+    let (t2, p2) = (t.clone(), problems.clone());
+    let target = tokio::spawn(async move {
+        let mut b = vec![0u8; 70000];
+        while let Ok((n, from)) = t2.recv_from(&mut b).await {
+            match check_payload(nonce, &b[..n]) {
+                Ok(id) => {
+                    let len = u32::from_be_bytes(b[16..20].try_into().unwrap()) as usize;
+                    let _ = t2.send_to(&make_payload(nonce, id.app, 0, id.seq, len, 1), from).await;
+                    if id.seq == 777 {
+                        let t3 = t2.clone();
+                        tokio::spawn(async move {
+                            for k in 0..60u32 {
+                                tokio::time::sleep(Duration::from_millis(50)).await;
+                                let _ = t3.send_to(&make_payload(nonce, id.app, 0, 10_000 + k, 80, 1), from).await;
+                            }
+                        });
+                    }
+                }
+                Err(e) => p2.lock().unwrap().push(e),
+            }
+        }
+    });
+    let client_addr = ("127.0.0.1", d.client_port);
+    let mut buf = vec![0u8; 70000];
+    // ---- (3)
+    if !is_ss {
+        for round in 0..if a.thorough { 4u16 } else { 2 } {
+            let b = UdpSocket::bind("127.0.0.1:0").await.unwrap();
+            let _ = b.send_to(&socks5_udp("127.0.0.1", tport, &make_payload(nonce, 100 + round, 0, 777, 60, 0)), client_addr).await;
+            // B's binding opens (700 ms), then its replies stream in for 3 s
+            let streaming = tokio::time::timeout(Duration::from_millis(2500), b.recv_from(&mut buf)).await.is_ok();
+            tokio::time::sleep(Duration::from_millis(300)).await;
+            let asock = UdpSocket::bind("127.0.0.1:0").await.unwrap();
+            let _ = asock.send_to(&socks5_udp("127.0.0.1", tport, &make_payload(nonce, 200 + round, 0, 1, 60, 0)), client_addr).await;
+            let answered = tokio::time::timeout(Duration::from_millis(4000), asock.recv_from(&mut buf)).await.is_ok();
+            rep.evaluations += 1;
+            rep.mon("bindings_opened_while_replies_for_another_application_arrive", if streaming { 1 } else { 0 });
+            rep.case(&("opening", idx, round), streaming);
+            if streaming && !answered {
+                // once more with a fresh socket and nothing else going on: is the relay serving at all?
+                tokio::time::sleep(Duration::from_millis(3000)).await;
+                let c = UdpSocket::bind("127.0.0.1:0").await.unwrap();
+                let _ = c.send_to(&socks5_udp("127.0.0.1", tport, &make_payload(nonce, 300 + round, 0, 1, 60, 0)), client_addr).await;
+                let quiet_ok = tokio::time::timeout(Duration::from_millis(4000), c.recv_from(&mut buf)).await.is_ok();
+                if quiet_ok {
+                    rep.violation(format!("C02|{}|opening:the-datagram-that-opens-a-binding-is-lost-while-replies-for-another-application-arrive", cfgname), format!("{cfgname}: an application's first datagram (its binding's handshake takes 700 ms) was never answered while another application's replies arrived every 50 ms; the same datagram from a fresh socket in a quiet moment is answered"), json!({"seed": a.seed, "round": round, "deploy": d.describe()}));
+                    break;
+                } else {
+                    rep.inconclusive(format!("{cfgname}: the relay does not answer in a quiet moment either"));
+                }
+            }
+        }
+    }
+    // ---- (4) fragments: each application's datagram cut in two (FRAG 1, then FRAG 0x82 = last, position 2), interleaved B1 A1 B2 A2
+    {
+        let before = problems.lock().unwrap().len();
+        let (sa, sb) = (UdpSocket::bind("127.0.0.1:0").await.unwrap(), UdpSocket::bind("127.0.0.1:0").await.unwrap());
+        for round in 0..3u32 {
+            let (pa, pb) = (make_payload(nonce, 400, 0, round, 200, 0), make_payload(nonce, 401, 0, round, 200, 0));
+            let frag = |p: &[u8], f: u8| {
+                let mut d = socks5_udp("127.0.0.1", tport, p);
+                d[2] = f;
+                d
+            };
+            let _ = sb.send_to(&frag(&pb[..100], 1), client_addr).await;
+            let _ = sa.send_to(&frag(&pa[..100], 1), client_addr).await;
+            let _ = sb.send_to(&frag(&pb[100..], 0x82), client_addr).await;
+            let _ = sa.send_to(&frag(&pa[100..], 0x82), client_addr).await;
+            tokio::time::sleep(Duration::from_millis(120)).await;
+            rep.evaluations += 1;
+        }
+        tokio::time::sleep(Duration::from_millis(300)).await;
+        rep.mon("fragmented_datagrams_of_two_applications_interleaved", 3);
+        rep.case(&("fragments", idx), true);
+        let new: Vec<String> = problems.lock().unwrap()[before..].to_vec();
+        if let Some(p) = new.first() {
+            rep.violation(format!("C02|{}|fragments:{}", cfgname, crate::panicmon::normalise(p).split(':').next().unwrap_or("")), format!("{cfgname}: fragments of two applications' datagrams, interleaved: the target received a datagram that none of them sent ({p})"), json!({"seed": a.seed, "problems": new, "deploy": d.describe()}));
+        }
+        // and the relay still serves
+        let c = UdpSocket::bind("127.0.0.1:0").await.unwrap();
+        let mut ok = false;
+        for seq in 0..3u32 {
+            let _ = c.send_to(&socks5_udp("127.0.0.1", tport, &make_payload(nonce, 402, 0, seq, 60, 0)), client_addr).await;
+            if tokio::time::timeout(Duration::from_millis(2500), c.recv_from(&mut buf)).await.is_ok() {
+                ok = true;
+                break;
+            }
+        }
+        if !ok {
+            rep.violation(format!("C02|{}|fragments:relay-does-not-serve-afterwards", cfgname), format!("{cfgname}: after fragmented datagrams a fresh application is not served"), json!({"seed": a.seed, "deploy": d.describe()}));
+        }
+    }
+    for (who, node) in [("client", &mut pair.client), ("server", &mut pair.server)] {
+        if !node.alive() {
+            rep.violation(format!("C02|{}|{}-exited", cfgname, who), format!("{who} exited"), json!({"log": node.log_tail(8)}));
+        }
+    }
+    target.abort();
+    if let Some(s) = slow {
+        s.1.abort();
+    }
+    drop(pair);
+    let _ = std::fs::remove_dir_all(&dir);
+    rep
+}
+
 pub async fn run(a: &Args) -> Report {
     use refimpl::ss::Method as M;
     let sem = Arc::new(tokio::sync::Semaphore::new(6));
@@ -664,6 +812,17 @@ pub async fn run(a: &Args) -> Report {
         hs.push(tokio::spawn(async move {
             let _g = sem.acquire_owned().await.unwrap();
             labels(a, 50 + k, p).await
+        }));
+    }
+    let mut of = vec![(Proto::Trojan, Transport::Tls), (Proto::Vmess(3), Transport::Ws), (Proto::Ss(M::B3Aes128Gcm), Transport::Tcp)];
+    if a.thorough {
+        of.extend([(Proto::Trojan, Transport::Wss), (Proto::Vmess(4), Transport::Tcp), (Proto::Vmess(3), Transport::Tls), (Proto::Ss(M::Aes256Gcm), Transport::Tcp)]);
+    }
+    for (k, (p, t)) in of.into_iter().enumerate() {
+        let (a, sem) = (a.clone(), sem.clone());
+        hs.push(tokio::spawn(async move {
+            let _g = sem.acquire_owned().await.unwrap();
+            opening_and_fragments(a, 80 + k, p, t).await
         }));
     }
     let mut rep = Report::new();
